@@ -9,6 +9,7 @@
 package main
 
 import (
+	"encoding/json"
 	"flag"
 	"fmt"
 	"go/ast"
@@ -26,10 +27,15 @@ var (
 	repo   string
 	fset   = token.NewFileSet()
 	failed []string
+
+	// curFailed is set when the job being run hit a pattern that no longer
+	// matches the source.
+	curFailed bool
 )
 
 func fail(format string, a ...interface{}) {
 	failed = append(failed, fmt.Sprintf(format, a...))
+	curFailed = true
 }
 
 // pkgFiles parses all non-test Go files of a package directory.
@@ -240,18 +246,32 @@ func main() {
 	flag.StringVar(&repo, "repo", "/repo", "repository root")
 	flag.Parse()
 
+	// Every job is tagged with the properties whose model consumes its
+	// output. A failing job keeps its previous generated file (so the
+	// model still builds) and is reported in facts_status.json; ./check
+	// treats that as a broken tie for exactly the tagged properties.
+	status := map[string][]string{}
+	var good []*leanFile
 	for _, job := range jobs {
-		job()
-	}
-
-	if len(failed) > 0 {
-		sort.Strings(failed)
-		for _, f := range failed {
-			fmt.Fprintln(os.Stderr, "astfacts:", f)
+		curFailed = false
+		before := len(outputs)
+		nFailed := len(failed)
+		job.fn()
+		if curFailed {
+			for _, p := range job.props {
+				status[p] = append(status[p], failed[nFailed:]...)
+			}
+			continue
 		}
-		os.Exit(1)
+		good = append(good, outputs[before:]...)
 	}
-	for _, l := range outputs {
+	sort.Strings(failed)
+	for _, f := range failed {
+		fmt.Fprintln(os.Stderr, "astfacts:", f)
+	}
+	sb, _ := json.MarshalIndent(map[string]interface{}{"failed": status}, "", " ")
+	_ = os.WriteFile(filepath.Join(*out, "facts_status.json"), sb, 0o644)
+	for _, l := range good {
 		path := filepath.Join(*out, l.name+".lean")
 		newTxt := l.sb.String()
 		// only touch the file when its content changes, so that lake
@@ -267,4 +287,9 @@ func main() {
 	fmt.Printf("astfacts: %d files\n", len(outputs))
 }
 
-var jobs []func()
+type job struct {
+	props []string
+	fn    func()
+}
+
+var jobs []job
